@@ -2,10 +2,10 @@
    Generic theorems (Model/Quant.v) instantiated with the SZ-1.4 1-D kernels over Flocq arithmetic.
    Statement discipline: each of the three obligations of a kernel is either proved for all inputs,
    or evaluated by the model on the run (theorems "..._checked"), or refuted with a witness. *)
-From Coq Require Import ZArith List Bool.
+From Coq Require Import ZArith List Bool Reals.
 From Flocq Require Import IEEE754.Binary.
 Import ListNotations.
-Require Import SZV.Base.FloatOps SZV.Model.Quant SZV.Model.QuantFloat SZV.Model.QuantFloat2 SZV.Model.QuantFloat3 SZV.Proofs.Quant_proofs SZV.Proofs.QuantFloat_proofs SZV.Proofs.QuantFloat2_proofs SZV.Proofs.QuantFloat3_proofs.
+Require Import SZV.Base.FloatOps SZV.Model.Quant SZV.Model.QuantFloat SZV.Model.QuantFloat2 SZV.Model.QuantFloat3 SZV.Proofs.Quant_proofs SZV.Proofs.QuantFloat_proofs SZV.Proofs.QuantFloat2_proofs SZV.Proofs.QuantFloatNz_proofs SZV.Proofs.QuantFloat3_proofs.
 Local Open Scope Z_scope.
 
 (* generic: lock-step and bound from the three obligations (any value type, predictor, quantiser) *)
@@ -118,6 +118,24 @@ Theorem C01_float3d_bound_partial : forall c xs h,
 Proof. exact f3d_bound. Qed.
 Print Assumptions C01_float3d_bound_partial.
 
+(* float 2-D / 3-D: the code is never 0 either (for contexts with 2 .. 2^24 intervals and a non-negative 1/e, a decidable condition that
+   every context built from a positive bound meets), so the decoder reproduces the encoder's reconstructions on EVERY input -- no evaluated
+   flag is left in the lock-step statement of these two kernels *)
+Theorem C01_float2d_code_nonzero : forall c h p x q r,
+  (1 <= fradius (fc c)) -> (2 * fradius (fc c) < 2 ^ 24) -> (0 <= Binary.B2R 24 128 (frecip (fc c)))%R ->
+  fquant2 c h p x = Some (q, r) -> q <> 0.
+Proof. exact SZV.Proofs.QuantFloatNz_proofs.fquant2_nonzero. Qed.
+Print Assumptions C01_float2d_code_nonzero.
+Theorem C01_float2d_lockstep : forall c xs h, ctx_ok2 (fc c) -> let '(qs, es, rs) := fenc2 c h xs in fdec2 c h qs es = Some rs.
+Proof. exact f2d_lockstep_all. Qed.
+Print Assumptions C01_float2d_lockstep.
+Theorem C01_float3d_lockstep : forall c xs h, ctx_ok2 (fc (f2 c)) -> let '(qs, es, rs) := fenc3 c h xs in fdec3 c h qs es = Some rs.
+Proof. exact f3d_lockstep_all. Qed.
+Print Assumptions C01_float3d_lockstep.
+Theorem C01_ctx_ok_decidable : forall c, ctx_ok2b c = true -> ctx_ok2 c.
+Proof. exact ctx_ok2b_ok. Qed.
+Print Assumptions C01_ctx_ok_decidable.
+
 (* before the repair the double 1-D kernel had no re-check; pred + 2ke rounds away from the value
    (data 0, 0, 0.5, e = 0.1: reconstruction 0.6000000000000001, error 0.10000000000000009 > 0.1) *)
 Theorem C01_double1d_no_recheck_refuted : exists e iv xs,
@@ -138,4 +156,8 @@ Example C01_ex : let xs := [0x3F800000; 0x3F8CCCCD; 0x3F99999A; 0x40000000; 0x3F
 Proof. vm_compute. reflexivity. Qed.
 Example C01_ex2 : let xs := [0x3F800000; 0x3F8CCCCD; 0x3F99999A; 0x40000000; 0x3FA66666; 0x3F800000] in
   let c := {| fc := fctx_of 0x3FA999999999999A 32 xs; frow := 3%nat |} in fchecks2 c [] xs = (true, true, true, true).
+Proof. vm_compute. reflexivity. Qed.
+(* the context of that run meets the hypothesis of the unconditional lock-step theorems *)
+Example C01_ex3 : let xs := [0x3F800000; 0x3F8CCCCD; 0x3F99999A; 0x40000000; 0x3FA66666; 0x3F800000] in
+  ctx_ok2b (fctx_of 0x3FA999999999999A 32 xs) = true.
 Proof. vm_compute. reflexivity. Qed.
